@@ -57,6 +57,8 @@ def context(tier, seed):
 
 def units(ctx):
     yield ("long", 0)
+    for nb in (15, 16, 17, 31, 32, 33, 48, 64, 65):
+        yield ("bars", nb)
     for i, _ in enumerate(plans(ctx["B"])):
         for fam in ("one", "two", "key", "three"):
             if fam == "three" and i % 5:
@@ -92,6 +94,31 @@ def gen_cases(unit, ctx):
                 for meta in (0, 2):
                     yield {"plan": plan, "keys": keys, "meta": meta, "q": q,
                            "tracks": [{"notes": t0, "cap": end}, {"notes": t1, "cap": None}, {"notes": t2, "cap": None}]}
+        return
+    if fam == "bars":
+        # scale in the number of bars: nb bars (signature changes on the way); track 0 ends exactly with the last bar,
+        # track 1's last note ends inside bar nb-1 / nb-2, track 2 is short, track 3 empty; a bass note held for eight bars
+        # under a melody of eighth notes (its release lies hundreds of messages after the bar lines that cut it)
+        p, nb = ctx["p"], i
+        for base in ("44", "34", "68"):
+            plan = [base] * nb
+            if nb > 8:
+                plan[5], plan[6] = "58", base
+            st, _ = grid(plan)
+            end = st[-1]
+            mel = [[o, 12, p + (o // 12) % 7, 0, 64] for o in range(0, end - 12, 12)] + [[end - 12, 12, p + 3, 0, 64]]
+            bass = [[st[b] + 6, st[min(b + 8, nb)] - st[b] - 12, p - 20, 0, 50] for b in range(0, nb - 1, 9)]
+            t1end = st[-2] - 5
+            t1 = [[o, 24, p + 12, 1, 50] for o in range(0, t1end - 24, 48)] + [[t1end - 9, 9, p + 14, 1, 51]]
+            t2 = [[6, 6, p - 5, 2, 40], [st[2] + 1, 24, p - 5, 2, 41]]
+            keys = [None] * nb
+            keys[0], keys[min(6, nb - 1)] = "D", "A"
+            for q in (True, False):
+                yield {"plan": plan, "keys": keys, "meta": 0, "q": q,
+                       "tracks": [{"notes": mel + bass, "cap": None}, {"notes": t1, "cap": None}, {"notes": t2, "cap": None},
+                                  {"notes": [], "cap": None}]}
+                yield {"plan": plan, "keys": keys, "meta": 1, "q": q,
+                       "tracks": [{"notes": t1, "cap": None}, {"notes": mel, "cap": end}]}
         return
     plan = list(plans(ctx["B"]))[i]
     p = ctx["p"]
